@@ -209,7 +209,72 @@ func c06ConfiguredHasher(c *RunCtx, unit int) {
 	judge("recover", pws[1], pws[2], 30)
 }
 
+// c06SpentCookieAfterChange: "every remember-me token issued to that account before the change stops working" —
+// the rotated-away (spent) value of a cookie included, immediately after the change and later: T1 is issued at
+// login, copied, rotated to T2 by a session-less visit; then the password changes; then the copy of T1 and T2
+// are presented from session-less browsers. Neither authenticates, and no token row exists for the account.
+func c06SpentCookieAfterChange(c *RunCtx, unit int) {
+	via := []string{"update", "recover"}[(unit/8)%2]
+	cfg := world.Cfg{Modules: []string{"auth", "remember", "recover", "logout"}, Mount: "/auth", JSON: (unit/16)%2 == 1, RecoverTTL: time.Hour}
+	w, err := world.New(cfg, "c06-spent-cookie")
+	if err != nil {
+		c.Stats.Inconclusive = append(c.Stats.Inconclusive, "world: "+err.Error())
+		return
+	}
+	pid, oldPw, newPw := "rotated@site.test", "0ldPassw0rd!", "N3wPassw0rd!"
+	w.Store.Put(&world.User{PID: pid, Email: pid, Password: sim.Hash4(oldPw), Confirmed: true})
+	b := world.NewBrowser(1)
+	w.Do(b, world.Req{Method: "POST", Path: w.P("/login"), Form: map[string]string{"email": pid, "password": oldPw, "rm": "true"}})
+	t1 := b.Jar["rm"]
+	delete(b.Jar, world.SidCookie)
+	w.Do(b, world.Req{Method: "GET", Path: "/public"})
+	t2 := b.Jar["rm"]
+	if t1 == "" || t2 == "" || t1 == t2 {
+		c.Stats.Inconclusive = append(c.Stats.Inconclusive, "c06 spent cookie: no rotation observed")
+		return
+	}
+	if via == "update" {
+		if rec := w.AdminUpdatePassword(pid, newPw); rec.AdminErr != "" {
+			c.Stats.Inconclusive = append(c.Stats.Inconclusive, "c06 spent cookie: UpdatePassword failed")
+			return
+		}
+	} else {
+		w.Do(world.NewBrowser(2), world.Req{Method: "POST", Path: w.P("/recover"), Form: map[string]string{"email": pid}})
+		tok := ""
+		if n := len(w.Mails); n > 0 {
+			if m := c06MailTok.FindStringSubmatch(w.Mails[n-1].Email.TextBody); m != nil {
+				tok, _ = url.QueryUnescape(m[1])
+			}
+		}
+		w.Do(world.NewBrowser(3), world.Req{Method: "POST", Path: w.P("/recover/end"), Form: map[string]string{"token": tok, "password": newPw, "confirm_password": newPw}})
+	}
+	if u := w.Store.Peek(pid); u == nil || !sim.BcryptOK(u.Password, newPw) {
+		c.Stats.Inconclusive = append(c.Stats.Inconclusive, "c06 spent cookie: the change did not go through")
+		return
+	}
+	n := 10
+	for _, when := range []time.Duration{0, 5 * time.Second, 6 * time.Second, time.Minute} {
+		w.Advance(when)
+		for _, ck := range []struct{ what, val string }{{"the rotated-away value", t1}, {"the current value", t2}} {
+			n++
+			x := world.NewBrowser(n)
+			x.Jar["rm"] = ck.val
+			rec := w.Do(x, world.Req{Method: "GET", Path: "/protected/bare"})
+			c.Stats.Evaluations++
+			c.Stats.Count("pre-change-cookies-presented-after-the-change")
+			if rec.SessOut["uid"] != "" || rec.Probe.UID != "" || len(w.Store.Tokens(pid)) != 0 {
+				v := vio("C06", "pre-change-cookie-works-after-change|"+via+"|"+strings.Fields(ck.what)[1], "%s of a remember cookie issued before the password change (via %s), presented %s after it from a session-less browser: session uid=%q, page served as %q, %d token rows stored", ck.what, via, when, rec.SessOut["uid"], rec.Probe.UID, len(w.Store.Tokens(pid)))
+				c.Stats.Violations = append(c.Stats.Violations, sim.VioRec{Violation: *v, Index: unit, Cfg: cfg.String(), History: []string{"login rm=true → T1", "session-less visit → T2", "password change via " + via, "present " + ck.what}})
+				return
+			}
+		}
+	}
+}
+
 func c06Unit(c *RunCtx, unit int) {
+	if unit%8 == 2 {
+		c06SpentCookieAfterChange(c, unit)
+	}
 	if unit%8 == 6 {
 		c06ConfiguredHasher(c, unit)
 	}
@@ -549,11 +614,11 @@ func c06Unit(c *RunCtx, unit int) {
 func init() {
 	register(&Check{
 		ID: "C06", Level: "exploration",
-		Rule:  "per unit two rounds: 0-3 remember cookies of the target on as many browsers plus one of a bystander (when the remember module is loaded), then a password change by recovery link or programmatic update (in some units with the remember-token purge failing: a change that still reports success is held to every clause; in others with a login by the OLD password running to completion between two of the change's backend calls) with old/new pairs from {fresh, identical, 1 byte, 71/72/73 bytes, non-ASCII, NUL-containing, policy-violating}; afterwards real requests: every earlier cookie presented from a session-less browser, the bystander's cookie, the spent recovery token again, login with the old and the new password on a clean browser, login of the bystander; plus direct inspection of the stored hash (bcrypt shape, verifies new, not old unless bcrypt-equivalent) and of the diff (only the target's record/token rows). Plus, in every 40th unit, a burst on a real instance: 16 accounts change their passwords through Authboss.UpdatePassword at the same moment, 60 rounds; after each round every stored hash verifies its own account's new password and none of its neighbours'. Plus, in every 8th unit, a login with the OLD password suspended before each of its backend calls while the recovery of the same account runs to completion (no module that saves during a login loaded; in half of these units the configured bcrypt cost is above the stored hashes' cost): afterwards the stored hash verifies the new password only, the old one does not log in, the new one does. Every 8th unit runs the changes (programmatic update, recovery) on an instance with an application-supplied hasher: the stored value verifies under THAT hasher, for the new password only. distinct_nontrivial = distinct (route, new-password class, #cookies, remember loaded, login-after-recovery, mode, applied) signatures.",
+		Rule:  "per unit two rounds: 0-3 remember cookies of the target on as many browsers plus one of a bystander (when the remember module is loaded), then a password change by recovery link or programmatic update (in some units with the remember-token purge failing: a change that still reports success is held to every clause; in others with a login by the OLD password running to completion between two of the change's backend calls) with old/new pairs from {fresh, identical, 1 byte, 71/72/73 bytes, non-ASCII, NUL-containing, policy-violating}; afterwards real requests: every earlier cookie presented from a session-less browser, the bystander's cookie, the spent recovery token again, login with the old and the new password on a clean browser, login of the bystander; plus direct inspection of the stored hash (bcrypt shape, verifies new, not old unless bcrypt-equivalent) and of the diff (only the target's record/token rows). Plus, in every 40th unit, a burst on a real instance: 16 accounts change their passwords through Authboss.UpdatePassword at the same moment, 60 rounds; after each round every stored hash verifies its own account's new password and none of its neighbours'. Plus, in every 8th unit, a login with the OLD password suspended before each of its backend calls while the recovery of the same account runs to completion (no module that saves during a login loaded; in half of these units the configured bcrypt cost is above the stored hashes' cost): afterwards the stored hash verifies the new password only, the old one does not log in, the new one does. Every 8th unit runs the changes (programmatic update, recovery) on an instance with an application-supplied hasher: the stored value verifies under THAT hasher, for the new password only. Every 8th unit: a cookie is issued, copied, rotated by a session-less visit, the password changes (update / recovery), then the rotated-away and the current value are presented at +0 s, +5 s, +11 s and +71 s: neither authenticates, no token row exists. distinct_nontrivial = distinct (route, new-password class, #cookies, remember loaded, login-after-recovery, mode, applied) signatures.",
 		Units: func(t string) int { return tierN(t, 320, 15000) },
 		Run:   c06Unit,
 		Floors: func(t string) map[string]int {
-			return map[string]int{"change-applied:recover": 40, "change-applied:update": 20, "old-cookie-presented": 40, "bystander-cookie-ok": 30, "old-password-tried": 50, "token-replayed": 30, "change-refused:long73": 5, "hashes-checked-after-concurrent-changes": 1000, "old-password-login-overlapping-the-change": 20, "changes-under-a-configured-hasher:update": 20, "changes-under-a-configured-hasher:recover": 20}
+			return map[string]int{"change-applied:recover": 40, "change-applied:update": 20, "old-cookie-presented": 40, "bystander-cookie-ok": 30, "old-password-tried": 50, "token-replayed": 30, "change-refused:long73": 5, "hashes-checked-after-concurrent-changes": 1000, "old-password-login-overlapping-the-change": 20, "changes-under-a-configured-hasher:update": 20, "changes-under-a-configured-hasher:recover": 20, "pre-change-cookies-presented-after-the-change": 100}
 		},
 		Assumptions: []string{"programmatic UpdatePassword has no policy of its own: only bcrypt's 72-byte limit refuses a value there"},
 	})
